@@ -131,6 +131,12 @@ package analysis
 //@   at call AddLocVar#* before assert[initialisers-analysed-before-any-name-is-bound] hits("cgExp#0") >= len(node.ExpList) || hits("cgExp#0") > len(node.NameList)
 //@   at call AddLocVar#0 before assert[name-bound-at-its-own-location-in-the-current-scope] arg0 == scope && streq(arg2, node.NameList[i]) && arg5 == node.VarLocList[i]
 //@   loop range:node.ExpList#0 invariant hits("cgExp#0") == rangeindex + 1
+// of the Lua 5.4 attributes only <close> exempts a local from the unused report (<const> does not)
+//@   loop range:node.ExpList#1 step [C07,only-to-be-closed-locals-are-exempt] (varInfo.IsClose ==> node.AttrList[i] == ast.RDKTOCLOSE) && (node.AttrList[i] == ast.RDKTOCLOSE ==> varInfo.IsClose)
+//@   loop for:i<nNames step [C07,only-to-be-closed-locals-are-exempt] (hits("AddLocVar#1") > prev(hits("AddLocVar#1")) ==>
+//@        (lastresult("AddLocVar#1").IsClose ==> node.AttrList[prev(i)] == ast.RDKTOCLOSE) && (node.AttrList[prev(i)] == ast.RDKTOCLOSE ==> lastresult("AddLocVar#1").IsClose))
+//@        && (hits("AddLocVar#2") > prev(hits("AddLocVar#2")) ==>
+//@        (lastresult("AddLocVar#2").IsClose ==> node.AttrList[prev(i)] == ast.RDKTOCLOSE) && (node.AttrList[prev(i)] == ast.RDKTOCLOSE ==> lastresult("AddLocVar#2").IsClose))
 //@ end
 
 // local function f: f is bound before its body is analysed (recursion sees it).
@@ -159,6 +165,16 @@ package analysis
 //@   at call InsertError#0 before assert[unused-report-skips-exempt-locals] !oneVar.IsClose && oneVar.ReferFunc == nil && !streq(varName, "_")
 //@   at call InsertError#0 before assert[unused-report-at-the-declaration] arg3 == oneVar.Loc
 //@   at call InsertError#0 before assert[unused-report-only-in-the-first-pass] a.checkTerm == results.CheckTermFirst
+//@   loop range:varInfoList.VarVec step [declaration-skipped-only-when-read-exempt-or-a-library-alias] hits("InsertError#0") == prev(hits("InsertError#0")) ==>
+//@        oneVar.IsUse || oneVar.IsClose || oneVar.ReferFunc != nil || hits("IsInSysNotUseMap#0") > prev(hits("IsInSysNotUseMap#0")) || hits("IsInSysNotUseMap#1") > prev(hits("IsInSysNotUseMap#1"))
+//@ end
+// every name of the scope and every declaration of a name is examined - the scan ranges over a Go map, so leaving it
+// early would make the set of reports depend on the iteration order (C09) and miss unread locals (C07)
+//@ func (*Analysis).checkLocVarCall
+//@   props C07 C09
+//@   loop range:scope.LocVarMap exits-early-only-if [every-name-of-the-scope-is-examined] false
+//@   loop range:varInfoList.VarVec exits-early-only-if [every-declaration-of-a-name-is-examined] false
+//@   loop range:oneVar.NoUseAssignLocs exits-early-only-if [every-write-only-assignment-is-listed] false
 //@ end
 
 // ---- C20: duplicate function parameter (type 13) ----
@@ -255,4 +271,11 @@ package analysis
 //@ func (*Analysis).cgForInStat
 //@   props C05 C06 C11
 //@   loop range:node.NameList step [control-variable-is-confined-to-the-loop-body] locVar.ForBodyLoc == node.Block.Loc
+//@ end
+
+// ---- C01: no index out of range while classifying an assignment target ----
+// bounds only (the rest of the analysis is outside the C01 sweep): the table name is split at "." and its parts are
+// indexed; a name such as "_G" that comes from a STRING prefix - ("_G").x = 1 - has a single part
+//@ func (*Analysis).checkLeftAssign
+//@   sweep C01 -nil -div -assert-type -panic -extern-pre -typed-nil
 //@ end
